@@ -38,13 +38,13 @@ theorem resRun_xyz_proj (v : Variant) (ls : List Line) (st : XSt) (p : Nat) :
     | ret r => rfl
     | err e => rfl
 
-theorem resRun_lmp_proj (ls : List Line) (st : LSt) (p : Nat) :
-    projL (resRun lmpStepO ls (st, p)) = lmpRun ls st := by
+theorem resRun_lmp_proj (v : Variant) (ls : List Line) (st : LSt) (p : Nat) :
+    projL (resRun (lmpStepO v) ls (st, p)) = lmpRun v ls st := by
   induction ls generalizing st p with
   | nil => rfl
   | cons l ls ih =>
     simp only [resRun, lmpRun, lmpStepO]
-    cases h : lmpStep st l with
+    cases h : lmpStep v st l with
     | cont st' => simp only []; exact ih st' _
     | ret r => rfl
     | err e => rfl
@@ -61,11 +61,11 @@ theorem xyzReaderO_proj (v : Variant) (content : List Char) (o : RP) :
   rw [← resRun_xyz_proj v (lines (content.drop o.cur)) (xInit o.cur) o.prev]
   cases resRun (xyzStepO v) (lines (content.drop o.cur)) (xInit o.cur, o.prev) <;> rfl
 
-theorem lmpReaderO_proj (content : List Char) (o : RP) :
-    objProj (lmpReaderO content o) = lmpReader content o.cur := by
+theorem lmpReaderO_proj (v : Variant) (content : List Char) (o : RP) :
+    objProj (lmpReaderO v content o) = lmpReader v content o.cur := by
   unfold lmpReaderO lmpReader
-  rw [← resRun_lmp_proj (lines (content.drop o.cur)) (lInit o.cur) o.prev]
-  cases resRun lmpStepO (lines (content.drop o.cur)) (lInit o.cur, o.prev) <;> rfl
+  rw [← resRun_lmp_proj v (lines (content.drop o.cur)) (lInit o.cur) o.prev]
+  cases resRun (lmpStepO v) (lines (content.drop o.cur)) (lInit o.cur, o.prev) <;> rfl
 
 theorem objProj_ok {F : Type} {r : Except Err (List F × RP)} {fs : List F} {pos : Nat}
     (h : objProj r = .ok (fs, pos)) : ∃ p', r = .ok (fs, ⟨pos, p'⟩) := by
@@ -151,7 +151,7 @@ theorem rpRun_absent_as_empty {F : Type} (readerO : List Char → RP → Except 
 theorem xyzReaderO_empty (v : Variant) (o : RP) : xyzReaderO v [] o = .ok ([], o) := by
   simp [xyzReaderO, lines, resRun, finish, xInit]
 
-theorem lmpReaderO_empty (o : RP) : lmpReaderO [] o = .ok ([], o) := by
+theorem lmpReaderO_empty (v : Variant) (o : RP) : lmpReaderO v [] o = .ok ([], o) := by
   simp [lmpReaderO, lines, resRun, finish, lInit]
 
 /-- a file that does not reach beyond `current_position` (truncated, replaced by something shorter, or simply
@@ -160,8 +160,8 @@ theorem xyzReaderO_short (v : Variant) (content : List Char) (o : RP) (h : conte
     xyzReaderO v content o = .ok ([], o) := by
   simp [xyzReaderO, List.drop_eq_nil_of_le h, lines, resRun, finish, xInit]
 
-theorem lmpReaderO_short (content : List Char) (o : RP) (h : content.length ≤ o.cur) :
-    lmpReaderO content o = .ok ([], o) := by
+theorem lmpReaderO_short (v : Variant) (content : List Char) (o : RP) (h : content.length ≤ o.cur) :
+    lmpReaderO v content o = .ok ([], o) := by
   simp [lmpReaderO, List.drop_eq_nil_of_le h, lines, resRun, finish, lInit]
 
 /-! ### positions: the object on an append-only trajectory -/
@@ -262,22 +262,28 @@ theorem lmpStagesPos_length {F : Type} (lens : List Nat) (dec : List F) (evs : L
       · simp [ih]
 
 /-- **all polls, with positions (LAMMPS)** -/
-theorem lmp_rpRun_pos (N : Nat) (hN : 1 ≤ N) (frames : List LmpF) (hwf : ∀ f ∈ frames, f.WF N)
-    (evs : List (Option Nat)) (done : Nat) (late : Bool) (hd : done ≤ frames.length)
+theorem lmp_rpRun_pos (v : Variant) (N : Nat) (hN : 1 ≤ N) (frames : List LmpF) (hwf : ∀ f ∈ frames, f.WF N)
+    (evs : List (Option Nat))
+    (hfree : ∀ e ∈ evs, ∀ d, d ≤ frames.length →
+      tbFree (frames.drop d) (visBytes e - sumLens ((frames.map LmpF.len).take d)))
+    (done : Nat) (late : Bool) (hd : done ≤ frames.length)
     (hl : late = true → 1 ≤ done) (p : Nat) :
-    stagesPos (rpRun lmpReaderO (visible ((frames.map LmpF.enc).flatten) evs)
+    stagesPos (rpRun (lmpReaderO v) (visible ((frames.map LmpF.enc).flatten) evs)
         ⟨sumLens ((frames.map LmpF.len).take done) - (if late then 1 else 0), p⟩)
       = .ok (lmpStagesPos (frames.map LmpF.len) (frames.map (LmpF.decode N)) evs done late) := by
   induction evs generalizing done late p with
   | nil => rfl
   | cons e es ih =>
+    have hfree2 : ∀ e' ∈ es, ∀ d, d ≤ frames.length →
+        tbFree (frames.drop d) (visBytes e' - sumLens ((frames.map LmpF.len).take d)) :=
+      fun e' he' => hfree e' (by simp [he'])
     cases e with
     | none =>
       simp only [visible, List.map_cons, Option.map_none, rpRun, rpPoll, lmpStagesPos]
-      have := ih done late hd hl p
+      have := ih hfree2 done late hd hl p
       simp only [visible] at this
       revert this
-      cases rpRun lmpReaderO (List.map (fun e => Option.map (fun c => List.take c (List.map LmpF.enc frames).flatten) e) es)
+      cases rpRun (lmpReaderO v) (List.map (fun e => Option.map (fun c => List.take c (List.map LmpF.enc frames).flatten) e) es)
         ⟨sumLens ((frames.map LmpF.len).take done) - (if late then 1 else 0), p⟩ with
       | error e => intro h; simp [stagesPos] at h
       | ok st =>
@@ -298,9 +304,9 @@ theorem lmp_rpRun_pos (N : Nat) (hN : 1 ≤ N) (frames : List LmpF) (hwf : ∀ f
           intro h
           have := congrArg List.length h
           rw [List.length_take, List.length_nil] at this; omega
-        have hpoll := lmpReader_poll_late N (frames.take done) (frames.drop done) hwfd hne c
+        have hpoll := lmpReader_poll_late (v := v) N (frames.take done) (frames.drop done) hwfd hne c
         rw [← hsplit, hpos] at hpoll
-        have hproj := lmpReaderO_proj (((frames.map LmpF.enc).flatten).take c)
+        have hproj := lmpReaderO_proj v (((frames.map LmpF.enc).flatten).take c)
           ⟨sumLens ((frames.map LmpF.len).take done) - 1, p⟩
         simp only [] at hproj
         rw [hpoll] at hproj
@@ -308,10 +314,10 @@ theorem lmp_rpRun_pos (N : Nat) (hN : 1 ≤ N) (frames : List LmpF) (hwf : ∀ f
         simp only [if_true, visible, List.map_cons, Option.map_some, rpRun, rpPoll, hp', lmpStagesPos]
         by_cases hc : c < sumLens ((frames.map LmpF.len).take done)
         · simp only [hc, if_true]
-          have := ih done true hd hl p'
+          have := ih hfree2 done true hd hl p'
           simp only [if_true, visible] at this
           revert this
-          cases rpRun lmpReaderO (List.map (fun e => Option.map (fun c => List.take c (List.map LmpF.enc frames).flatten) e) es)
+          cases rpRun (lmpReaderO v) (List.map (fun e => Option.map (fun c => List.take c (List.map LmpF.enc frames).flatten) e) es)
             ⟨sumLens ((frames.map LmpF.len).take done) - 1, p'⟩ with
           | error e => intro h; simp [stagesPos] at h
           | ok st =>
@@ -319,10 +325,10 @@ theorem lmp_rpRun_pos (N : Nat) (hN : 1 ≤ N) (frames : List LmpF) (hwf : ∀ f
             simp only [stagesPos, Except.ok.injEq] at h ⊢
             simp [h]
         · simp only [hc, if_false]
-          have := ih done false hd (by intro h; cases h) p'
+          have := ih hfree2 done false hd (by intro h; cases h) p'
           simp only [Bool.false_eq_true, if_false, Nat.sub_zero, visible] at this
           revert this
-          cases rpRun lmpReaderO (List.map (fun e => Option.map (fun c => List.take c (List.map LmpF.enc frames).flatten) e) es)
+          cases rpRun (lmpReaderO v) (List.map (fun e => Option.map (fun c => List.take c (List.map LmpF.enc frames).flatten) e) es)
             ⟨sumLens ((frames.map LmpF.len).take done), p'⟩ with
           | error e => intro h; simp [stagesPos] at h
           | ok st =>
@@ -330,9 +336,10 @@ theorem lmp_rpRun_pos (N : Nat) (hN : 1 ≤ N) (frames : List LmpF) (hwf : ∀ f
             simp only [stagesPos, Except.ok.injEq] at h ⊢
             simp [h]
       | false =>
-        have hpoll := lmpReader_poll N hN (frames.take done) (frames.drop done) hwfr c
+        have hpoll := lmpReader_poll (v := v) N hN (frames.take done) (frames.drop done) hwfr c
+          (by rw [hpos]; exact hfree (some c) (by simp) done hd)
         rw [← hsplit, hpos] at hpoll
-        have hproj := lmpReaderO_proj (((frames.map LmpF.enc).flatten).take c)
+        have hproj := lmpReaderO_proj v (((frames.map LmpF.enc).flatten).take c)
           ⟨sumLens ((frames.map LmpF.len).take done), p⟩
         simp only [] at hproj
         rw [hpoll] at hproj
@@ -341,7 +348,7 @@ theorem lmp_rpRun_pos (N : Nat) (hN : 1 ≤ N) (frames : List LmpF) (hwf : ∀ f
           rpPoll, hp', lmpStagesPos]
         have hm := lmpCount_fst_le ((frames.drop done).map LmpF.len) (c - sumLens ((frames.map LmpF.len).take done))
         simp only [List.length_map, List.length_drop] at hm
-        have hnext := ih (done + (lmpCount ((frames.drop done).map LmpF.len)
+        have hnext := ih hfree2 (done + (lmpCount ((frames.drop done).map LmpF.len)
             (c - sumLens ((frames.map LmpF.len).take done))).1)
           (lmpCount ((frames.drop done).map LmpF.len) (c - sumLens ((frames.map LmpF.len).take done))).2
           (by omega)
@@ -349,7 +356,7 @@ theorem lmp_rpRun_pos (N : Nat) (hN : 1 ≤ N) (frames : List LmpF) (hwf : ∀ f
         rw [sumLens_take_add'] at hnext
         simp only [visible, List.map_drop] at hnext hm ⊢
         revert hnext
-        generalize rpRun lmpReaderO (List.map (fun e => Option.map (fun c => List.take c (List.map LmpF.enc frames).flatten) e) es) _ = R
+        generalize rpRun (lmpReaderO v) (List.map (fun e => Option.map (fun c => List.take c (List.map LmpF.enc frames).flatten) e) es) _ = R
         cases R with
         | error e => intro h; simp [stagesPos] at h
         | ok st =>
